@@ -1523,7 +1523,7 @@ class EBPF(EBPFBase):
             yield
             for tmp, i in save:
                 self.append(Opcode.MOV+Opcode.LONG+Opcode.REG, i, tmp, 0, 0)
-            self.owners -= registers
+            self.owners = oldowners
 
     @contextmanager
     def get_stack(self, size):
